@@ -124,6 +124,7 @@ type orch struct {
 }
 
 type job struct {
+	alts    []ProgSpec // tried in order while the program holds (probabilistic reproducers)
 	id      string
 	pair    pairDef
 	prog    *ProgSpec
@@ -154,6 +155,10 @@ func probeSpec(arch, f string) ProgSpec {
 		allow = append(allow, "ld_x2", "st_x2")
 	case "exec_ops":
 		allow = append(allow, "sgpr64")
+	case "waw", "waw_waitcnt":
+		allow = append(allow, "st_x2", "st_x4", "loop_uniform")
+	case "xkernel":
+		allow = append(allow, "ld_x2", "ld_x4")
 	case "sgpr64", "readfirstlane":
 		allow = append(allow, "salu")
 	case "dims2", "dims3":
@@ -162,20 +167,61 @@ func probeSpec(arch, f string) ProgSpec {
 			allow = append(allow, "v5_ids_yz")
 		}
 	}
-	return ProgSpec{ID: "probe-" + arch + "-" + f, Arch: arch, Seed: hash64("C02/probe/" + f), Allow: allow, Force: force, Probe: f}
+	sp := ProgSpec{ID: "probe-" + arch + "-" + f, Arch: arch, Seed: hash64("C02/probe/" + f), Allow: allow, Force: force, Probe: f}
+	switch f {
+	case "xkernel":
+		// hand-written chain: eight one-wavefront work-groups per kernel walk
+		// over the compute units; after 64 (r9nano) / 120 (mi300a) work-groups
+		// a compute unit reads lines it has read before and that other
+		// compute units have rewritten since
+		sp.Geo = &Launch{Grid: [3]uint32{512, 1, 1}, WG: [3]uint16{64, 1, 1}}
+		sp.Chain = 11
+		if arch == "cdna3" {
+			// 120 compute units: ten work-groups per kernel come back after 12 kernels
+			sp.Geo = &Launch{Grid: [3]uint32{640, 1, 1}, WG: [3]uint16{64, 1, 1}}
+			sp.Chain = 15
+		}
+		sp.Script = []string{"ldr dword 0 0", "ldr x4 16 1", "wait", "fold 1 0", "fold 4 1"}
+	case "waw":
+		sp.Seed, sp.Size = wawSeeds[0], 1
+	}
+	return sp
 }
+
+// wawSeeds: programs (medium size, store heavy) that reproduce the
+// same-address store inversion on the mi300a platform at the time of writing;
+// the probe tries them in order until one diverges.
+var wawSeeds = []uint64{37, 14, 24, 21, 16, 38}
+
+func probeAlts(arch, f string) []ProgSpec {
+	if f != "waw" {
+		return nil
+	}
+	var out []ProgSpec
+	for i, s := range wawSeeds[1:] {
+		sp := probeSpec(arch, f)
+		sp.Seed = s
+		sp.ID = fmt.Sprintf("%s-alt%d", sp.ID, i+1)
+		out = append(out, sp)
+	}
+	return out
+}
+
+// features whose open findings have one root cause in code shared by both
+// platform pairs: disabled everywhere as soon as one pair reproduces them
+var sharedAcrossPairs = map[string]bool{"waw": true, "xkernel": true}
 
 // canonMix is the fixed program every knob variant is probed with.
 func canonMix(arch string, k int) ProgSpec {
 	allow := append([]string{}, baseFeatures...)
 	allow = append(allow, "ld_x2", "ld_x4", "st_x2", "st_x4", "straddle", "smem_x2", "smem_x4", "smem_x8", "lds", "lds2", "lds64",
 		"diamond", "diamond_else", "nested", "loop_uniform", "loop_divergent", "partial_wg", "big_wg", "multi_kernel", "waitcnt_nz",
-		"vcc_ops", "sgpr64", "readfirstlane", "vop3_sgpr_pair", "ld_ubyte")
+		"vcc_ops", "sgpr64", "readfirstlane", "vop3_sgpr_pair", "ld_ubyte", "raw_mem", "waw_waitcnt")
 	force := []string{"lds", "st_x4", "ld_x4", "partial_wg", "smem_x4"}
 	if k == 1 {
 		force = append(force, "big_wg", "multi_kernel")
 	}
-	return ProgSpec{ID: fmt.Sprintf("canon-mix%d-%s", k, arch), Arch: arch, Seed: hash64(fmt.Sprintf("C02/canon-mix/%d", k)), Allow: allow, Force: force}
+	return ProgSpec{ID: fmt.Sprintf("canon-mix%d-%s", k, arch), Arch: arch, Seed: hash64(fmt.Sprintf("C02/canon-mix/%d", k)), Allow: allow, Force: force, Size: 1}
 }
 
 func (o *orch) run() {
@@ -193,9 +239,9 @@ func (o *orch) run() {
 				continue // base features: part of every probe
 			}
 			sp := probeSpec(p.Arch, f)
-			jobsA = append(jobsA, &job{id: sp.ID, pair: p, prog: &sp, timing: []PlatSpec{p.Timing}, scope: "probe:" + f})
+			jobsA = append(jobsA, &job{id: sp.ID, pair: p, prog: &sp, timing: []PlatSpec{p.Timing}, scope: "probe:" + f, alts: probeAlts(p.Arch, f)})
 		}
-		for k := 0; k < 2; k++ {
+		for k := 0; k < c.N(1, 2); k++ {
 			sp := canonMix(p.Arch, k)
 			ts := []PlatSpec{p.Timing}
 			ts = append(ts, variants(p)...)
@@ -234,7 +280,15 @@ func (o *orch) run() {
 		var allow []string
 		var off []string
 		for _, f := range featureList(p.Arch) {
-			if _, dis := o.disabled[pk][f]; dis {
+			_, dis := o.disabled[pk][f]
+			if sharedAcrossPairs[f] {
+				for _, m := range o.disabled {
+					if _, d := m[f]; d {
+						dis = true
+					}
+				}
+			}
+			if dis {
 				off = append(off, f)
 				continue
 			}
@@ -254,7 +308,7 @@ func (o *orch) run() {
 		c.Set("variants_disabled_by_open_findings/"+pk, voff)
 		for i := 0; i < n; i++ {
 			r := base.ForkN(p.Arch, i)
-			sp := ProgSpec{ID: fmt.Sprintf("seeded-%s-%d", p.Arch, i), Arch: p.Arch, Seed: r.Uint64(), Allow: allow}
+			sp := ProgSpec{ID: fmt.Sprintf("seeded-%s-%d", p.Arch, i), Arch: p.Arch, Seed: r.Uint64(), Allow: allow, Size: []int{0, 0, 1, 0, 1, 2}[i%6]}
 			ts := []PlatSpec{p.Timing}
 			if len(vs) > 0 {
 				if c.Thorough() {
@@ -296,6 +350,10 @@ type runOut struct {
 	timeout bool
 	tail    string
 	dur     time.Duration
+	// crash in a full-trace run: instructions that were issued and never
+	// completed, and those among them whose opcode completed nowhere
+	inflight []string
+	suspects []string
 }
 
 func (o *orch) runCase(cs Case) runOut {
@@ -312,6 +370,9 @@ func (o *orch) runCase(cs Case) runOut {
 		}
 	}
 	out.tail = vlib.Tail(r.OutPath, 6000)
+	if cs.Full {
+		out.inflight, out.suspects = readJournal(filepath.Join(r.Dir, "journal.txt"))
+	}
 	if r.TimedOut {
 		out.timeout = true
 		return out
@@ -338,6 +399,24 @@ func crashClass(tail string) string {
 }
 
 func normCrash(s string) string {
+	if i := strings.Index(s, "runtime error:"); i >= 0 {
+		s = "Panic: " + s[i:]
+		// indices / capacities vary with the data: keep the shape only
+		var b strings.Builder
+		inNum := false
+		for _, ch := range s {
+			if ch >= '0' && ch <= '9' {
+				if !inNum {
+					b.WriteByte('N')
+				}
+				inNum = true
+				continue
+			}
+			inNum = false
+			b.WriteRune(ch)
+		}
+		s = b.String()
+	}
 	// drop addresses / ids / timestamps so that the class is stable
 	var b strings.Builder
 	prevHex := false
@@ -367,7 +446,13 @@ func normCrash(s string) string {
 
 func (o *orch) runJobs(jobs []*job) {
 	workers := 14
-	vlib.Parallel(len(jobs), workers, func(i int) { o.runJob(jobs[i]) })
+	vlib.Parallel(len(jobs), workers, func(i int) {
+		t0 := time.Now()
+		o.runJob(jobs[i])
+		if os.Getenv("C02_TIMES") != "" {
+			fmt.Printf("[C02] time %-40s %6.1fs\n", jobs[i].id, time.Since(t0).Seconds())
+		}
+	})
 }
 
 func listMain() {
@@ -462,4 +547,49 @@ func disasmMain(path string) {
 			n++
 		}
 	}
+}
+
+// readJournal parses the crash-safe instruction journal of a full-trace
+// timing run.
+func readJournal(path string) (inflight, suspects []string) {
+	b, err := os.ReadFile(path)
+	if err != nil {
+		return nil, nil
+	}
+	type st struct{ desc, op string }
+	open := map[string]st{}
+	completedOps := map[string]bool{}
+	var order []string
+	for _, l := range strings.Split(string(b), "\n") {
+		f := strings.Fields(l)
+		if len(f) >= 6 && f[0] == "S" {
+			id := f[1] + "#" + f[2]
+			open[id] = st{desc: fmt.Sprintf("%s|%s|%s", f[3], f[4], f[5]), op: f[3] + "/" + f[4]}
+			order = append(order, id)
+		} else if len(f) >= 3 && f[0] == "D" {
+			id := f[1] + "#" + f[2]
+			if s, ok := open[id]; ok {
+				completedOps[s.op] = true
+				delete(open, id)
+			}
+		}
+	}
+	seenI, seenS := map[string]bool{}, map[string]bool{}
+	for _, id := range order {
+		s, ok := open[id]
+		if !ok {
+			continue
+		}
+		if !seenI[s.desc] {
+			seenI[s.desc] = true
+			inflight = append(inflight, s.desc)
+		}
+		if !completedOps[s.op] && !seenS[s.desc] {
+			seenS[s.desc] = true
+			suspects = append(suspects, s.desc)
+		}
+	}
+	sort.Strings(inflight)
+	sort.Strings(suspects)
+	return
 }
